@@ -119,7 +119,7 @@ def adopt(src: str, sid: str, prop: str, skip_suite: bool) -> int:
 
 def main() -> int:
     ap = argparse.ArgumentParser()
-    ap.add_argument("cmd", choices=["confirm", "suite", "check", "all", "adopt"])
+    ap.add_argument("cmd", choices=["confirm", "suite", "check", "all", "adopt", "refactors"])
     ap.add_argument("--id")
     ap.add_argument("--property")
     ap.add_argument("--skip-suite", action="store_true")
@@ -130,6 +130,19 @@ def main() -> int:
     a = ap.parse_args()
     if a.cmd == "adopt":
         return adopt(a.dir, a.id, a.property, a.skip_suite)
+    if a.cmd == "refactors":
+        # negative controls: behaviour-preserving refactorings on which every listed check must exit 0
+        base = os.path.join(VERIF, "refactors")
+        bad = []
+        for name in sorted(os.listdir(base)):
+            d = os.path.join(base, name)
+            meta = json.load(open(os.path.join(d, "meta.json")))
+            r = check(d, a.tier, a.props.split(",") if a.props else meta["checks"], a.seed)
+            bad += [(name, p_, v) for p_, v in r.items() if v["exit"] != 0]
+        print(f"[refactors] false alarms / errors: {len(bad)}")
+        for b in bad:
+            print("  ", b)
+        return 1 if bad else 0
     if a.cmd == "confirm":
         return 0 if confirm(a.dir) else 1
     if a.cmd == "suite":
